@@ -133,7 +133,14 @@ func takesCodec(fn *ssa.Function) bool {
 // order.  straight reports whether all operations lie on one straight path
 // (each op's block dominates the next one's).
 func codecOps(fn *ssa.Function) (ops []codecOp, capacity int64, straight bool) {
-	return codecOpsD(fn, 0)
+	return codecOpsD(fn, 0, 0)
+}
+
+// codecOpsSide: only the encoding (side > 0) or only the decoding (side < 0)
+// operations of fn - for a function that holds an encoder written out in place
+// next to calls of the decoder.
+func codecOpsSide(fn *ssa.Function, side int) (ops []codecOp, capacity int64, straight bool) {
+	return codecOpsD(fn, 0, side)
 }
 
 func joinPath(a, b string) string {
@@ -146,7 +153,7 @@ func joinPath(a, b string) string {
 	return a + "." + b
 }
 
-func codecOpsD(fn *ssa.Function, depth int) (ops []codecOp, capacity int64, straight bool) {
+func codecOpsD(fn *ssa.Function, depth int, side int) (ops []codecOp, capacity int64, straight bool) {
 	capacity = -1
 	straight = true
 	var last *ssa.BasicBlock
@@ -160,7 +167,7 @@ func codecOpsD(fn *ssa.Function, depth int) (ops []codecOp, capacity int64, stra
 			if cal != nil && depth < 2 && cal != fn && IsRepoFunc(cal) && cal.Blocks != nil {
 				// a helper that encodes/decodes a sub-structure: its operations, with the
 				// field paths prefixed by the sub-structure's path at this call
-				hops, hcap, hs := codecOpsD(cal, depth+1)
+				hops, hcap, hs := codecOpsD(cal, depth+1, side)
 				if len(hops) == 0 {
 					continue
 				}
@@ -253,6 +260,9 @@ func codecOpsD(fn *ssa.Function, depth int) (ops []codecOp, capacity int64, stra
 			default:
 				op.Kind = name
 			}
+			if (side > 0 && !op.Put) || (side < 0 && op.Put) {
+				continue
+			}
 			if last != nil && !last.Dominates(b) {
 				straight = false
 			}
@@ -272,8 +282,8 @@ func compareCodec(c *Ctx, id, name string, enc, dec *ssa.Function, slot int64, f
 	}
 	R.Analysed[FuncName(enc)] = true
 	R.Analysed[FuncName(dec)] = true
-	eo, capEnc, es := codecOps(enc)
-	do, _, ds := codecOps(dec)
+	eo, capEnc, es := codecOpsSide(enc, 1)
+	do, _, ds := codecOpsSide(dec, -1)
 	key := name + "|"
 	R.Check(es && ds, id, key+"straight-line", P.Pos(enc.Pos()), "encoder and decoder perform their operations on one straight path", "each operation dominates the next", "conditional codec operations: layout depends on data")
 	same := len(eo) == len(do) && len(eo) > 0
